@@ -145,7 +145,7 @@ def tw_decision(path: str, mode_i: int, branch: bool, allowed: bool, qs_i: int) 
 
 
 # ---------------------------------------------------------------- end to end: one hop, same resource
-SEGS = ['a', 'x?y', 'p#q', '100%', '%41', 'é', 'b c', 'k;v', 'q&r=s', 'a+b', '%2F', '.', '=']
+SEGS = ['a', 'x?y', 'p#q', '100%', '%41', 'é', 'b c', 'a:b', '.', 'k;v', 'q&r=s', 'a+b', '%2F', '=', 'mailto:x@y', '..']
 QS = ['', 'a=1&b=2', 'q=%3F%23', 'x=é', 'a=1', 'k', 'a=b=c&&']
 METHODS = ['GET', 'POST', 'HEAD', 'PUT']
 
@@ -168,6 +168,9 @@ def _apps():
     inner = Application([Route('/one/<name>/', single_ep)], slash_mode=S_STRICT)
     out['emb_inherit'] = Application([('/pre', inner)], slash_mode=S_REDIRECT)
     out['emb_own'] = Application([A.SubApplication('/pre', inner, inherit_slashes=False)], slash_mode=S_REDIRECT)
+    # embedded at the root prefix: the re-bound routes must follow the OUTER application's mode
+    out['root_inherit'] = Application([('/', Application([Route('/one/<name>/', single_ep), Route('/leaf/<name>', single_ep)], slash_mode=S_STRICT))], slash_mode=S_REDIRECT)
+    out['root_strict_outer'] = Application([('/', Application([Route('/one/<name>/', single_ep), Route('/leaf/<name>', single_ep)], slash_mode=S_REDIRECT))], slash_mode=S_STRICT)
     return out
 
 
@@ -191,7 +194,11 @@ def _url(kind, seg_i, seg2_i, lead, mid, trail):
 def _one_hop(app_key, kind_i, seg_i, seg2_i, lead, mid, trail, qs_i, method_i):
     app = _APPS[app_key]
     kind = _KINDS[kind_i]
-    if app_key in ('emb_inherit', 'emb_own'):
+    if app_key in ('root_inherit', 'root_strict_outer'):
+        if kind not in ('one', 'leaf'):
+            return True
+        path = _url(kind, seg_i, seg2_i, lead, mid, trail)
+    elif app_key in ('emb_inherit', 'emb_own'):
         if kind != 'one':
             return True
         path = '/pre' + _url(kind, seg_i, seg2_i, lead, mid, trail)
@@ -205,7 +212,7 @@ def _one_hop(app_key, kind_i, seg_i, seg2_i, lead, mid, trail, qs_i, method_i):
     decoded = req0.path
     is_branch = kind in ('static', 'one', 'many', 'getonly')
     canon = normalize_path(decoded, is_branch)
-    mode = {'emb_inherit': S_REDIRECT, 'emb_own': S_STRICT}.get(app_key, app_key)
+    mode = {'emb_inherit': S_REDIRECT, 'emb_own': S_STRICT, 'root_inherit': S_REDIRECT, 'root_strict_outer': S_STRICT}.get(app_key, app_key)
     admitted = not (kind == 'getonly' and method in ('POST', 'PUT'))
     if r1.status_code in (301, 302, 303, 307, 308):
         # only: redirect mode, branch route, admitted method, non-canonical path
@@ -233,20 +240,24 @@ def _one_hop(app_key, kind_i, seg_i, seg2_i, lead, mid, trail, qs_i, method_i):
         # same decoded path; same query (a raw non-ASCII byte and its percent-encoding are the same query)
         return body[-2] == canon and unquote_to_bytes(body[-1].encode('latin-1')) == unquote_to_bytes(req0.query_string)
     if mode == S_REDIRECT and is_branch and admitted and canon != decoded and not (kind == 'leaf'):
-        # must have been redirected - unless the route does not match that path at all (404)
-        return r1.status_code == 404 and False
+        return False          # must have been redirected
+    if mode == S_STRICT and canon != decoded:
+        return r1.status_code == 404      # strict: a non-canonical path does not match (leaf routes included)
+    if mode == S_REWRITE and admitted and method != 'HEAD':
+        return r1.status_code == 200
     return True
 
 
 SLASHES = [(1, 1), (2, 1), (1, 2), (2, 3)]
+APP_KEYS = [S_REDIRECT, S_REWRITE, S_STRICT, 'emb_inherit', 'emb_own', 'root_inherit', 'root_strict_outer']
 
 
 def ob_one_hop(app_i: int, kind_i: int, seg_i: int, method_i: int, seg2_i: int, sl: int, trail: int, qs_i: int) -> bool:
     with untraced():
-        key = [S_REDIRECT, S_REWRITE, S_STRICT, 'emb_inherit', 'emb_own'][app_i]
+        key = APP_KEYS[app_i]
         return _one_hop(key, kind_i, seg_i, seg2_i, SLASHES[sl][0], SLASHES[sl][1], trail, qs_i, method_i)
 
 
 def confirm_one_hop(app_i, kind_i, seg_i, method_i, seg2_i, sl, trail, qs_i):
-    key = [S_REDIRECT, S_REWRITE, S_STRICT, 'emb_inherit', 'emb_own'][app_i]
+    key = APP_KEYS[app_i]
     return not _one_hop(key, kind_i, seg_i, seg2_i, SLASHES[sl][0], SLASHES[sl][1], trail, qs_i, method_i)
